@@ -26,17 +26,17 @@ type lcert struct {
 	sct  []byte
 }
 
-var blobLens = []int{1, 2, 22, 23, 24, 25, 255, 256, 257, 1000, 65535, 65536}
+var blobLens = []int{0, 1, 2, 22, 23, 24, 25, 255, 256, 257, 1000, 65535, 65536}
 
 func drawBlob(c *core.Ctx, label string) []byte {
 	n := blobLens[c.Pick(label+".len", len(blobLens))]
-	return c.BytesN(label, n)
+	if n == 0 {
+		c.Probe("zero-length blob (present but empty)")
+	}
+	return c.BytesN(label, n) // never nil: length 0 is "present but empty"
 }
 
-// emptyOCSP is set by drawChain when the invalid pattern uses a zero-length
-// OCSP value: only the writer is judged then (after decoding, an empty byte
-// string is indistinguishable from an absent one, a declared don't-care zone
-// of the reader).
+// emptyOCSP records that the invalid pattern uses a zero-length (but present) OCSP value.
 var emptyOCSP bool
 
 func drawChain(c *core.Ctx) ([]lcert, bool) {
@@ -143,10 +143,6 @@ func TestClean(t *testing.T) {
 					if err == nil {
 						c.Violation("invalid-chain-written", "CertChain.Write", "a chain with an invalid OCSP presence pattern was written")
 					}
-					if emptyOCSP {
-						c.Outcome("nt:refused")
-						return
-					}
 					// the same chain, serialized by the reference encoder, must be refused by the reader
 					rb := refEncode(ch)
 					got, rerr, pi, _ := readChain(c, rb, c.DrawReaderPlan("certnet.read", len(rb), false))
@@ -186,7 +182,7 @@ func TestClean(t *testing.T) {
 				}
 				for i, lc := range ch {
 					g := got[i]
-					if !bytes.Equal(g.Cert.Raw, lc.der) || !bytes.Equal(g.OCSPResponse, lc.ocsp) || !bytes.Equal(g.SCTList, lc.sct) || (g.OCSPResponse == nil) != (lc.ocsp == nil) {
+					if !bytes.Equal(g.Cert.Raw, lc.der) || !bytes.Equal(g.OCSPResponse, lc.ocsp) || !bytes.Equal(g.SCTList, lc.sct) || (g.OCSPResponse == nil) != (lc.ocsp == nil) || (g.SCTList == nil) != (lc.sct == nil) {
 						c.Violation("roundtrip", "ReadCertChain", "certificate %d differs after the round trip", i)
 					}
 				}
@@ -221,6 +217,32 @@ func refSCT(b []byte) ([][]byte, bool) {
 func TestSCTList(t *testing.T) {
 	rapid.Check(t, func(t *rapid.T) {
 		core.Run(t, "cert/sct-list", func(c *core.Ctx) {
+			// history: several lists are serialized one after another and every result
+			// must still be intact after the later calls
+			type kept struct {
+				out  []byte
+				copy []byte
+			}
+			var earlier []kept
+			rounds := c.Int("sct.rounds", 1, 3)
+			for round := 0; round < rounds; round++ {
+				out := sctOnce(c)
+				for i, k := range earlier {
+					if c.Oracle("C17") && !bytes.Equal(k.out, k.copy) {
+						c.Violation("sct-result-changed-later", "SerializeSCTList", "the result of call %d was modified by call %d", i, round)
+					}
+				}
+				if out != nil {
+					earlier = append(earlier, kept{out, append([]byte(nil), out...)})
+				}
+			}
+		})
+	})
+}
+
+func sctOnce(c *core.Ctx) []byte {
+	{
+		{
 			n := c.Int("sct.n", 0, 5)
 			var scts [][]byte
 			total := 0
@@ -270,8 +292,9 @@ func TestSCTList(t *testing.T) {
 			}
 			c.Outcome("nt:done")
 			c.Sig("n%d/t%d/e%v", n, total/8192, expectErr)
-		})
-	})
+			return out
+		}
+	}
 }
 
 // TestChannelFaults: a valid chain blob damaged on its way to the reader
